@@ -248,6 +248,38 @@ fn probe_kind(e: &FnEntry) -> Option<(u8, &'static str)> {
     }
 }
 
+/// for the type at `path`: (number of enum variants, all variants field-less) - (0, false) for other kinds
+fn enum_shape(schema: &VersionedScryptoSchema, root: LocalTypeId, path: &[u32]) -> (usize, bool) {
+    let s = schema.v1();
+    let mut t = root;
+    let mut i = 0;
+    while i < path.len() {
+        match s.resolve_type_kind(t) {
+            Some(TypeKind::Tuple { field_types }) => {
+                t = field_types[path[i] as usize];
+                i += 1;
+            }
+            Some(TypeKind::Array { element_type }) => {
+                t = *element_type;
+                i += 1;
+            }
+            Some(TypeKind::Map { key_type, value_type }) => {
+                t = if path[i] == 0 { *key_type } else { *value_type };
+                i += 1;
+            }
+            Some(TypeKind::Enum { variants }) => {
+                t = variants[&(path[i] as u8)][path[i + 1] as usize];
+                i += 2;
+            }
+            _ => return (0, false),
+        }
+    }
+    match s.resolve_type_kind(t) {
+        Some(TypeKind::Enum { variants }) => (variants.len(), variants.values().all(|f| f.is_empty())),
+        _ => (0, false),
+    }
+}
+
 fn has_receiver(w: &World, e: &FnEntry) -> bool {
     if e.bp == PROBE_BLUEPRINT {
         return false; // the probe itself is not a subject
@@ -277,7 +309,13 @@ fn dump_catalog() {
         if has_receiver(&rich, e) {
             states.push("rich");
         }
-        let ps: Vec<Value> = paths(&e.schema, e.input).into_iter().map(|(p, k)| json!({"p": p, "k": k})).collect();
+        let ps: Vec<Value> = paths(&e.schema, e.input)
+            .into_iter()
+            .map(|(p, k)| {
+                let (n, unit_like) = enum_shape(&e.schema, e.input, &p);
+                json!({"p": p, "k": k, "n": n, "unit": unit_like})
+            })
+            .collect();
         fns.push(json!({"f": i + 1, "pkg": hex::encode(e.pkg.as_node_id().0), "bp": e.bp, "ident": e.ident, "recv": e.recv,
             "internal": e.internal, "access": e.access, "states": states, "paths": ps}));
     }
@@ -437,7 +475,7 @@ fn hostile(sup: &mut Supply, schema: &VersionedScryptoSchema, t: LocalTypeId, m:
         },
         "arity" => match &kind {
             TypeKind::Tuple { field_types } => {
-                let mut fields: Vec<ManifestValue> = field_types.iter().map(|f| build(sup, schema, *f, None, None, 0)).collect();
+                let mut fields: Vec<ManifestValue> = field_types.iter().map(|f| build(sup, schema, *f, &[], 0)).collect();
                 if k % 2 == 0 && !fields.is_empty() {
                     fields.pop();
                 } else {
@@ -447,7 +485,7 @@ fn hostile(sup: &mut Supply, schema: &VersionedScryptoSchema, t: LocalTypeId, m:
             }
             TypeKind::Enum { variants } => {
                 let (vid, fs) = variants.iter().max_by_key(|(_, f)| f.len()).map(|(a, b)| (*a, b.clone())).unwrap_or((0, vec![]));
-                let mut fields: Vec<ManifestValue> = fs.iter().map(|f| build(sup, schema, *f, None, None, 0)).collect();
+                let mut fields: Vec<ManifestValue> = fs.iter().map(|f| build(sup, schema, *f, &[], 0)).collect();
                 if k % 2 == 0 && !fields.is_empty() {
                     fields.pop();
                 } else {
@@ -539,9 +577,9 @@ fn hostile(sup: &mut Supply, schema: &VersionedScryptoSchema, t: LocalTypeId, m:
                     let n = [0usize, 2, 300][(k % 3) as usize];
                     // duplicates: the same nominal element n times (objects are created once per element)
                     let elems: Vec<ManifestValue> = if matches!(kind_label(schema, *element_type).as_str(), "bucket" | "proof" | "reservation") {
-                        (0..n.min(3)).map(|_| build(sup, schema, *element_type, None, None, 0)).collect()
+                        (0..n.min(3)).map(|_| build(sup, schema, *element_type, &[], 0)).collect()
                     } else {
-                        let e = build(sup, schema, *element_type, None, None, 0);
+                        let e = build(sup, schema, *element_type, &[], 0);
                         (0..n).map(|_| e.clone()).collect()
                     };
                     let evk = value_kind_of(schema, *element_type);
@@ -551,8 +589,8 @@ fn hostile(sup: &mut Supply, schema: &VersionedScryptoSchema, t: LocalTypeId, m:
             TypeKind::Map { key_type, value_type } => {
                 let kk = value_kind_of(schema, *key_type);
                 let vk = value_kind_of(schema, *value_type);
-                let key = build(sup, schema, *key_type, None, None, 0);
-                let val = build(sup, schema, *value_type, None, None, 0);
+                let key = build(sup, schema, *key_type, &[], 0);
+                let val = build(sup, schema, *value_type, &[], 0);
                 let entries = match k % 3 {
                     0 => vec![],
                     1 => vec![(key.clone(), val.clone()), (key, val)], // duplicate keys
@@ -564,9 +602,9 @@ fn hostile(sup: &mut Supply, schema: &VersionedScryptoSchema, t: LocalTypeId, m:
                 // every variant in turn (k selects), nominal fields
                 let n = variants.len().max(1);
                 let (vid, fs) = variants.iter().nth((k as usize) % n).map(|(a, b)| (*a, b.clone())).unwrap_or((0, vec![]));
-                ManifestValue::Enum { discriminator: vid, fields: fs.iter().map(|f| build(sup, schema, *f, None, None, 0)).collect() }
+                ManifestValue::Enum { discriminator: vid, fields: fs.iter().map(|f| build(sup, schema, *f, &[], 0)).collect() }
             }
-            TypeKind::Tuple { .. } => build(sup, schema, t, None, None, 0),
+            TypeKind::Tuple { .. } => build(sup, schema, t, &[], 0),
             TypeKind::Any => match k % 4 {
                 0 => nested(60), // beyond the transport depth limit: cannot even be encoded
                 1 => nested(18), // just inside
@@ -574,14 +612,25 @@ fn hostile(sup: &mut Supply, schema: &VersionedScryptoSchema, t: LocalTypeId, m:
                 _ => ManifestValue::Array { element_value_kind: ManifestValueKind::U8, elements: (0..70_000).map(|i| ManifestValue::U8 { value: i as u8 }).collect() },
             },
             TypeKind::Custom(c) => match c {
-                ScryptoCustomTypeKind::Decimal => mv(&match k % 7 {
+                ScryptoCustomTypeKind::Decimal => mv(&match k % 16 {
                     0 => Decimal::ZERO,
                     1 => Decimal::from_attos(I192::ONE),
                     2 => Decimal::MAX,
                     3 => dec!(-1),
                     4 => Decimal::MIN,
                     5 => dec!("0.000000000000000001") * dec!(3),
-                    _ => Decimal::MAX / dec!(2),
+                    6 => Decimal::MAX / dec!(2),
+                    // within one unit of divisibility 18 / 2 / 0 of the ends of the range
+                    7 => Decimal::MAX - Decimal::from_attos(I192::ONE),
+                    8 => Decimal::MAX - dec!("0.01"),
+                    9 => Decimal::MAX - dec!(1),
+                    10 => Decimal::MIN + Decimal::from_attos(I192::ONE),
+                    11 => Decimal::MIN + dec!(1),
+                    // +-10^k near the ends (MAX is about 3.138 * 10^39)
+                    12 => dec!("1000000000000000000000000000000000000000"),
+                    13 => dec!("-1000000000000000000000000000000000000000"),
+                    14 => dec!("3138550867693340381917894711603833208051"),
+                    _ => dec!("0.5"),
                 }),
                 ScryptoCustomTypeKind::PreciseDecimal => mv(&match k % 4 {
                     0 => PreciseDecimal::ZERO,
@@ -608,7 +657,7 @@ fn hostile(sup: &mut Supply, schema: &VersionedScryptoSchema, t: LocalTypeId, m:
                         let b = sup.bucket("empty");
                         ManifestValue::Custom { value: ManifestCustomValue::Bucket(b) }
                     }
-                    _ => build(sup, schema, t, None, None, 0),
+                    _ => build(sup, schema, t, &[], 0),
                 },
             },
         },
@@ -648,25 +697,20 @@ fn value_kind_of(schema: &VersionedScryptoSchema, t: LocalTypeId) -> ManifestVal
     }
 }
 
-/// builds a value of type `t`; if `path` is Some, the position it names gets the hostile value
-pub fn build(sup: &mut Supply, schema: &VersionedScryptoSchema, t: LocalTypeId, path: Option<&[u32]>, m: Option<&Mutation>, depth: usize) -> ManifestValue {
-    if let (Some(p), Some(m)) = (path, m) {
-        if p.is_empty() {
-            return hostile(sup, schema, t, m);
-        }
+pub type Muts<'a> = [(&'a [u32], &'a Mutation<'a>)];
+
+/// builds a value of type `t`; every (path, mutation) of `muts` puts a hostile value at the position its path names
+pub fn build(sup: &mut Supply, schema: &VersionedScryptoSchema, t: LocalTypeId, muts: &Muts, depth: usize) -> ManifestValue {
+    if let Some((_, m)) = muts.iter().find(|(p, _)| p.is_empty()) {
+        return hostile(sup, schema, t, m);
     }
     if depth > 12 {
         return unit();
     }
     let s = schema.v1();
     let kind = s.resolve_type_kind(t).cloned().unwrap_or(TypeKind::Any);
-    // which child continues the path
-    let next = |i: usize| -> Option<&[u32]> {
-        match path {
-            Some(p) if !p.is_empty() && p[0] as usize == i => Some(&p[1..]),
-            _ => None,
-        }
-    };
+    // the mutations that continue into child i
+    let next = |i: usize| -> Vec<(&[u32], &Mutation)> { muts.iter().filter(|(p, _)| p[0] as usize == i).map(|(p, m)| (&p[1..], *m)).collect() };
     match &kind {
         TypeKind::Any => unit(),
         TypeKind::Bool => ManifestValue::Bool { value: true },
@@ -686,34 +730,29 @@ pub fn build(sup: &mut Supply, schema: &VersionedScryptoSchema, t: LocalTypeId, 
             if evk == ManifestValueKind::U8 {
                 ManifestValue::Array { element_value_kind: evk, elements: vec![ManifestValue::U8 { value: 1 }; 3] }
             } else {
-                ManifestValue::Array { element_value_kind: evk, elements: vec![build(sup, schema, *element_type, next(0), m, depth + 1)] }
+                ManifestValue::Array { element_value_kind: evk, elements: vec![build(sup, schema, *element_type, &next(0), depth + 1)] }
             }
         }
         TypeKind::Tuple { field_types } => ManifestValue::Tuple {
-            fields: field_types.iter().enumerate().map(|(i, f)| build(sup, schema, *f, next(i), m, depth + 1)).collect(),
+            fields: field_types.iter().enumerate().map(|(i, f)| build(sup, schema, *f, &next(i), depth + 1)).collect(),
         },
         TypeKind::Enum { variants } => {
-            // the variant the path goes through, else the first variant (fewest surprises)
-            let chosen: u8 = match path {
-                Some(p) if p.len() >= 2 && variants.contains_key(&(p[0] as u8)) => p[0] as u8,
-                _ => *variants.keys().next().unwrap_or(&0),
-            };
+            // the variant the (first) path goes through, else the first variant (fewest surprises)
+            let chosen: u8 = muts
+                .iter()
+                .find(|(p, _)| p.len() >= 2 && variants.contains_key(&(p[0] as u8)))
+                .map(|(p, _)| p[0] as u8)
+                .unwrap_or(*variants.keys().next().unwrap_or(&0));
             let fs = variants.get(&chosen).cloned().unwrap_or_default();
-            let sub: Option<&[u32]> = match path {
-                Some(p) if p.len() >= 2 && p[0] as u8 == chosen => Some(&p[1..]),
-                _ => None,
-            };
+            let sub: Vec<(&[u32], &Mutation)> = muts.iter().filter(|(p, _)| p.len() >= 2 && p[0] as u8 == chosen).map(|(p, m)| (&p[1..], *m)).collect();
             ManifestValue::Enum {
                 discriminator: chosen,
                 fields: fs
                     .iter()
                     .enumerate()
                     .map(|(i, f)| {
-                        let nx = match sub {
-                            Some(sp) if !sp.is_empty() && sp[0] as usize == i => Some(&sp[1..]),
-                            _ => None,
-                        };
-                        build(sup, schema, *f, nx, m, depth + 1)
+                        let nx: Vec<(&[u32], &Mutation)> = sub.iter().filter(|(sp, _)| sp[0] as usize == i).map(|(sp, m)| (&sp[1..], *m)).collect();
+                        build(sup, schema, *f, &nx, depth + 1)
                     })
                     .collect(),
             }
@@ -721,7 +760,7 @@ pub fn build(sup: &mut Supply, schema: &VersionedScryptoSchema, t: LocalTypeId, 
         TypeKind::Map { key_type, value_type } => ManifestValue::Map {
             key_value_kind: value_kind_of(schema, *key_type),
             value_value_kind: value_kind_of(schema, *value_type),
-            entries: vec![(build(sup, schema, *key_type, next(0), m, depth + 1), build(sup, schema, *value_type, next(1), m, depth + 1))],
+            entries: vec![(build(sup, schema, *key_type, &next(0), depth + 1), build(sup, schema, *value_type, &next(1), depth + 1))],
         },
         TypeKind::Custom(c) => match c {
             ScryptoCustomTypeKind::Decimal => mv(&dec!(1)),
@@ -928,8 +967,15 @@ pub fn purpose_manifest(w: &World, cat: &[FnEntry], p: &Value) -> Option<Transac
     let mut sup = Supply::new(w, p["id"].as_u64().unwrap_or(0));
     let m = Mutation { op, k };
     let args = match op {
-        "nominal" | "twice" | "proofthenuse" => build(&mut sup, &e.schema, e.input, None, None, 0),
-        _ => build(&mut sup, &e.schema, e.input, Some(&path), Some(&m), 0),
+        "nominal" | "twice" | "proofthenuse" => build(&mut sup, &e.schema, e.input, &[], 0),
+        "cross" => {
+            // a boundary amount at `path` crossed with variant k2 of the mode-like enum at `path2`
+            let path2: Vec<u32> = p["path2"].as_array().map(|a| a.iter().map(|x| x.as_u64().unwrap() as u32).collect()).unwrap_or_default();
+            let m1 = Mutation { op: "boundary", k };
+            let m2 = Mutation { op: "boundary", k: p["k2"].as_u64().unwrap_or(0) };
+            build(&mut sup, &e.schema, e.input, &[(&path2[..], &m2), (&path[..], &m1)], 0)
+        }
+        _ => build(&mut sup, &e.schema, e.input, &[(&path[..], &m)], 0),
     };
     let mut ins = vec![lock_fee()];
     let call = target(&mut sup, e, args.clone(), k)?;
@@ -1077,7 +1123,7 @@ fn random_manifest(w: &World, cat: &[FnEntry], rng: &mut StdRng, seed: u64, noau
                     let (path, _) = &ps[rng.gen_range(0..ps.len())];
                     let op = ops[rng.gen_range(0..ops.len())];
                     let m = Mutation { op, k: rng.gen_range(0..12) };
-                    let args = if op == "nominal" { build(&mut sup, &e.schema, e.input, None, None, 0) } else { build(&mut sup, &e.schema, e.input, Some(path), Some(&m), 0) };
+                    let args = if op == "nominal" { build(&mut sup, &e.schema, e.input, &[], 0) } else { build(&mut sup, &e.schema, e.input, &[(&path[..], &m)], 0) };
                     if let Some(call) = target(&mut sup, e, args, rng.gen_range(0..4)) {
                         sup.prelude.push(call);
                         break;
